@@ -10,7 +10,7 @@ theorem C06_no_code_inside_line_comment (d : Doc) (h : lcSafe d = true) (w : Nat
 
 /-- T6.2 (first half): converting a comment emits only comment-tagged text (nothing rigid is
 invented or absorbed), in every layout. -/
-theorem C06_comment_emits_only_comment (e : Env) (n : ANode) : Post (convComment e n) Soft :=
+theorem C06_comment_emits_only_comment (e : Env) (n : ANode) : Post (convComment e n) (fun c => Soft c.d) :=
   convComment_soft e n
 
 end Typstyle
